@@ -29,6 +29,7 @@ var exprForms = []string{
 	`f(a|up, [b])`, `h.k|up`, `(a)`, `a ? "y" : 'n'`,
 	`[]|join`, `{}|length`, `[[1, 2], []]|length`, `f([], {})`,
 	`f("x#{a}y")`, `["#{a}", "b"]|join`, `("#{a}#{b}")`, `{"k": "#{a}"}.k`,
+	`arr.1.0`, `h.k.0`, `arr.0|up`, `arr.0 ~ a`, `arr.0[0]`, `arr.0.k`, `nest.0.k`, `nest.1.k|up`,
 	`a and -b`, `z or +a`, `not -z`, `a and not z`, `a in [-1, +3]`, `a is odd or -b`, `a - -b`, `a ~ -b`, `-a ** 2`, `(a) - (b)`, `f(-a, +b)`, `a == -b ? -a : +b`,
 }
 
@@ -139,6 +140,7 @@ func stdCtx() map[string]stick.Value {
 		"one": []stick.Value{1},
 		"h":   map[string]stick.Value{"k": "vk"},
 		"obj": stdObj{"ob"},
+		"nest": []stick.Value{map[string]stick.Value{"k": "n0"}, map[string]stick.Value{"k": "n1"}},
 	}
 }
 
